@@ -16,6 +16,7 @@ pub struct VerifPrivate {
     pub stall_gate_events: u64,
     pub stall_probe_counter: u32,
     pub silence_pulled: bool,
+    pub silence_pull_heard_mark: Option<u64>,
     pub silence_pulls: u64,
     pub conn_timeout_ms: u64,
     pub quality_multiplier: f64,
@@ -31,6 +32,7 @@ impl SrtlaConnection {
             stall_gate_events: self.stall_gate_events,
             stall_probe_counter: self.stall_probe_counter,
             silence_pulled: self.silence_pulled,
+            silence_pull_heard_mark: self.silence_pull_heard_mark,
             silence_pulls: self.silence_pulls,
             conn_timeout_ms: self.conn_timeout_ms,
             quality_multiplier: self.quality_cache.multiplier,
@@ -45,6 +47,7 @@ impl SrtlaConnection {
         self.stall_gate_events = p.stall_gate_events;
         self.stall_probe_counter = p.stall_probe_counter;
         self.silence_pulled = p.silence_pulled;
+        self.silence_pull_heard_mark = p.silence_pull_heard_mark;
         self.silence_pulls = p.silence_pulls;
         self.conn_timeout_ms = p.conn_timeout_ms;
         self.quality_cache = CachedQuality {
